@@ -14,24 +14,29 @@ From FF Require Import Lib.Word Gen.Consts_mm_vmm Vmm.Region.
 Import ListNotations.
 Local Open Scope N_scope.
 
-(** * Physical memory: frame -> 512 words.  A table is a base function plus overrides. *)
-Definition table : Type := ((N -> N) * PositiveMap.t N)%type.
-Definition pmem : Type := PositiveMap.t table.
-
+(** * Physical memory: frame -> 512 words.  A table is a base pattern plus overrides. *)
 Definition POISON : N := 0x5B5B5B5B5B5B5B5B.
 Definition key (n : N) : positive := N.succ_pos n.
 
+Definition fill_word (seed i : N) : N := N.land (seed + i * 0x9E3779B97F4A7C15) 0xFFFFFFFFFFFFFFFF.
+
+(** the contents a frame was last set to as a whole: a constant word or the harness's fill pattern *)
+Inductive base := BConst (c : N) | BFill (seed : N).
+Definition base_get (b : base) (i : N) : N := match b with BConst c => c | BFill seed => fill_word seed i end.
+
+Definition table : Type := (base * PositiveMap.t N)%type.
+Definition pmem : Type := PositiveMap.t table.
+
 Definition tbl_get (t : table) (i : N) : N :=
-  match PositiveMap.find (key i) (snd t) with Some v => v | None => fst t i end.
+  match PositiveMap.find (key i) (snd t) with Some v => v | None => base_get (fst t) i end.
 Definition get_tbl (m : pmem) (f : N) : table :=
-  match PositiveMap.find (key f) m with Some t => t | None => (fun _ => POISON, PositiveMap.empty N) end.
+  match PositiveMap.find (key f) m with Some t => t | None => (BConst POISON, PositiveMap.empty N) end.
 Definition rd (m : pmem) (f i : N) : N := tbl_get (get_tbl m f) i.
 Definition wr (m : pmem) (f i v : N) : pmem :=
   let t := get_tbl m f in PositiveMap.add (key f) (fst t, PositiveMap.add (key i) v (snd t)) m.
-Definition zero (m : pmem) (f : N) : pmem := PositiveMap.add (key f) (fun _ => 0, PositiveMap.empty N) m.
+Definition zero (m : pmem) (f : N) : pmem := PositiveMap.add (key f) (BConst 0, PositiveMap.empty N) m.
 Definition cpy (m : pmem) (src dst : N) : pmem := PositiveMap.add (key dst) (get_tbl m src) m.
-Definition fill_word (seed i : N) : N := N.land (seed + i * 0x9E3779B97F4A7C15) 0xFFFFFFFFFFFFFFFF.
-Definition fill (m : pmem) (f seed : N) : pmem := PositiveMap.add (key f) (fill_word seed, PositiveMap.empty N) m.
+Definition fill (m : pmem) (f seed : N) : pmem := PositiveMap.add (key f) (BFill seed, PositiveMap.empty N) m.
 
 (** * Machine state *)
 Record st := mkSt {
@@ -562,26 +567,29 @@ Definition probe_obs (s : st) (probes : list N) : list N :=
 Definition op_obs (s : st) (code val : N) : list N :=
   [code; val; N.of_nat (length (flog s))] ++ rev (flog s) ++ [N.of_nat (length (slog s))] ++ rev (slog s).
 
-(** digest of physical memory (what the harness computes over the host pages) *)
+(** digest of physical memory (what the harness computes over the host pages):
+    per frame sum_{i<512} (i+1) * w_i mod 2^64, combined as h := h*31 + sum.  The sum is computed from the
+    base pattern in closed form plus a correction per overridden word. *)
 Definition m64 (x : N) : N := N.land x 0xFFFFFFFFFFFFFFFF.
-Fixpoint frame_sum_aux (g : N -> N) (n : nat) (i : N) (suffix total : N) : N :=
-  (* words i-1 downto 0: total = sum over j of (j+1) * w_j computed as a sum of suffix sums *)
-  match n with
-  | O => total
-  | S n' => let i' := i - 1 in
-            let suffix' := m64 (suffix + g i') in
-            frame_sum_aux g n' i' suffix' (m64 (total + suffix'))
+(** sum_{i<512} (i+1) = 131328 ;  sum_{i<512} (i+1)*i = 511*512*513/3 = 44739072 *)
+Definition base_sum (b : base) : N :=
+  match b with
+  | BConst c => m64 (c * 131328)
+  | BFill seed => m64 (seed * 131328 + 0x9E3779B97F4A7C15 * 44739072)
   end.
-(** sum_{j<512} (j+1) * w_j  =  sum_{k<512} sum_{j>=k} w_j *)
-Definition frame_sum (g : N -> N) : N := frame_sum_aux g 512 512 0 0.
-Definition poison_sum : N := frame_sum (fun _ => POISON).
+Definition frame_sum (t : table) : N :=
+  PositiveMap.fold (fun k v acc =>
+                      let i := Pos.pred_N k in
+                      m64 (acc + (i + 1) * (v + 0x10000000000000000 - base_get (fst t) i)))
+                   (snd t) (base_sum (fst t)).
+Definition poison_sum : N := base_sum (BConst POISON).
 
 Definition digest (s : st) : N :=
   fold_left (fun h k =>
                let f := lo s + N.of_nat k in
                let sm := match PositiveMap.find (key f) (mem s) with
                          | None => poison_sum
-                         | Some t => frame_sum (tbl_get t)
+                         | Some t => frame_sum t
                          end in
                m64 (h * 31 + sm))
             (seq 0 (N.to_nat (cnt s))) 0.
